@@ -429,6 +429,11 @@ func (e *env) equal(l, r interface{}, kl, kr numKind) bool {
 	case kl == kNil && kr == kNil:
 		return true
 	case kl == kNil || kr == kNil:
+		// a number, string or boolean is not nil (equality "always yields true or false"); for pointers,
+		// maps, slices, interfaces ... what counts as nil is not fixed here
+		if o := kl + kr - kNil; o == kInt || o == kFloat || o == kString || o == kBool {
+			return false
+		}
 		panic(Unspec("comparing with nil"))
 	case kl == kInt && kr == kInt:
 		return asInt(l) == asInt(r)
